@@ -25,6 +25,7 @@ class Check:
         self.notes = []
         self.fns = set()
         self.call_sites = 0
+        self.extra = {}
 
     # ---- declaring rules and recording obligations --------------------------------
     def rule(self, rid, text, floor=0):
@@ -61,6 +62,20 @@ class Check:
 
     def note(self, text):
         self.notes.append(text)
+
+    def merge(self, other, prefix):
+        """Adopt the rules/obligations of another Check (same property, another build configuration)."""
+        for rid in other.order:
+            r = other.rules[rid]
+            nr = {"text": "[%s] %s" % (prefix, r["text"]), "floor": r["floor"], "obs": []}
+            for o in r["obs"]:
+                o2 = dict(o)
+                o2["key"] = o["key"]  # same key: a finding known in one configuration is the same finding in the other
+                o2["instance"] = "%s:%s" % (prefix, o["instance"])
+                nr["obs"].append(o2)
+            self.rules[prefix + ":" + rid] = nr
+            self.order.append(prefix + ":" + rid)
+        self.fns |= other.fns
 
     # ---- finishing --------------------------------------------------------------------
     def finish(self):
@@ -178,6 +193,7 @@ class Check:
                 "facts_hash": self.facts.key if self.facts else None,
                 "mir_bodies_in_fact_base": len(self.facts.mir) if self.facts else 0,
                 "notes": self.notes,
+                "extra": self.extra,
                 "exhaustive": True,
             },
             "assumptions": self.assumptions
@@ -188,9 +204,10 @@ class Check:
             "wall_s": round(wall, 3),
             "violations": len(violations),
         }
-        os.makedirs(os.path.join(VERIF, "evidence"), exist_ok=True)
-        with open(os.path.join(VERIF, "evidence", self.pid + ".json"), "w") as f:
-            json.dump(ev, f, indent=1)
+        if not os.environ.get("UMYA_KEEP_EVIDENCE"):
+            os.makedirs(os.path.join(VERIF, "evidence"), exist_ok=True)
+            with open(os.path.join(VERIF, "evidence", self.pid + ".json"), "w") as f:
+                json.dump(ev, f, indent=1)
         print(
             "%s tier=%s obligations=%d discharged=%d known=%d violations=%d wall=%.1fs"
             % (self.pid, self.tier, total, discharged, len(known_hit), len(violations), wall)
